@@ -1250,4 +1250,293 @@ theorem denoteRegion_rel (pfx : String) {ρ : String → String} {k : Nat} (e e'
     rw [hf.1, hf.2]
     exact finishF_rn pfx ρ k p.2 (hr p.2 (blocks_counter_le pfx e items e.anon false h1)) (flat p.1) length
 
+/-! ### inserting a zero-length quoted region -/
+
+/-- number of quoted regions of fixed length (no wildcard) in an item list: the anonymous names it consumes -/
+def fixedNucs : List SrcItem → Nat
+  | [] => 0
+  | .nuc text :: r => (match resolve (parseQuoted text) none with | .ok _ => 1 | .error _ => 0) + fixedNucs r
+  | .ref _ _ :: r => fixedNucs r
+  | .domains _ _ :: r => fixedNucs r
+
+theorem blocks_counter (pfx : String) (env : Env) :
+    ∀ (items : List SrcItem) (n : Nat) (w : Bool) {bs : List Blk} {n' : Nat},
+      blocks pfx env items n w = .ok (bs, n') → n' = n + fixedNucs items
+  | [], n, w, bs, n', h => by
+    simp only [blocks, Except.ok.injEq, Prod.mk.injEq] at h
+    simp [fixedNucs]; omega
+  | .ref x star :: r, n, w, bs, n', h => by
+    simp only [blocks] at h
+    cases hl : env.seqs.lookup x with
+    | none => simp [hl] at h
+    | some b =>
+      simp only [hl] at h
+      cases hb : blocks pfx env r n w with
+      | error e => simp [hb] at h
+      | ok p =>
+        simp only [hb, Except.ok.injEq, Prod.mk.injEq] at h
+        have := blocks_counter pfx env r n w (bs := p.1) (n' := p.2) hb
+        simp only [fixedNucs]; omega
+  | .domains x star :: r, n, w, bs, n', h => by
+    simp only [blocks] at h
+    cases hl : env.seqs.lookup x with
+    | none => simp [hl] at h
+    | some b =>
+      simp only [hl] at h
+      split at h
+      · cases h
+      · cases hb : blocks pfx env r n w with
+        | error e => simp [hb] at h
+        | ok p =>
+          simp only [hb, Except.ok.injEq, Prod.mk.injEq] at h
+          have := blocks_counter pfx env r n w (bs := p.1) (n' := p.2) hb
+          simp only [fixedNucs]; omega
+  | .nuc text :: r, n, w, bs, n', h => by
+    simp only [blocks] at h
+    split at h
+    · rename_i l c hres
+      cases hb : blocks pfx env r (n + 1) w with
+      | error e => simp [hb] at h
+      | ok p =>
+        simp only [hb, Except.ok.injEq, Prod.mk.injEq] at h
+        have := blocks_counter pfx env r (n + 1) w (bs := p.1) (n' := p.2) hb
+        simp only [fixedNucs, hres]; omega
+    · rename_i hres
+      cases w with
+      | true => simp at h
+      | false =>
+        simp only [Bool.false_eq_true, if_false] at h
+        cases hb : blocks pfx env r n true with
+        | error e => simp [hb] at h
+        | ok p =>
+          simp only [hb, Except.ok.injEq, Prod.mk.injEq] at h
+          have := blocks_counter pfx env r n true (bs := p.1) (n' := p.2) hb
+          simp only [fixedNucs, hres]; omega
+    · cases h
+
+/-- a renaming that fixes what the environment binds and the anonymous names a run creates fixes its blocks -/
+theorem blocks_fixed (pfx : String) {ρ : String → String} (e : Env) (hs : SeqsRel ρ e.seqs e.seqs) :
+    ∀ (items : List SrcItem) (n : Nat) (w : Bool) {bs : List Blk} {n' : Nat},
+      blocks pfx e items n w = .ok (bs, n') →
+      (∀ m, n ≤ m → m < n' → ρ (pfx ++ "_Anon" ++ toString m) = pfx ++ "_Anon" ++ toString m) →
+      (flat bs).map (rnF ρ) = flat bs
+  | [], n, w, bs, n', h, _ => by
+    simp only [blocks, Except.ok.injEq, Prod.mk.injEq] at h
+    obtain ⟨rfl, _⟩ := h
+    rfl
+  | .ref x star :: r, n, w, bs, n', h, hfix => by
+    simp only [blocks] at h
+    have hx := hs x
+    cases hl : e.seqs.lookup x with
+    | none => simp [hl] at h
+    | some b =>
+      simp only [hl] at h hx
+      cases hb : blocks pfx e r n w with
+      | error e => simp [hb] at h
+      | ok p =>
+        simp only [hb, Except.ok.injEq, Prod.mk.injEq] at h
+        obtain ⟨rfl, rfl⟩ := h
+        have ih := blocks_fixed pfx e hs r n w (bs := p.1) (n' := p.2) hb hfix
+        have hseg : rnSeg ρ (if star then rc b.nucs else b.nucs) = (if star then rc b.nucs else b.nucs) := by
+          cases star <;> simp [rnSeg_rc, ← hx.1]
+        simp only [flat, List.map_append, map_rnF_n, hseg, ih]
+  | .domains x star :: r, n, w, bs, n', h, hfix => by
+    simp only [blocks] at h
+    have hx := hs x
+    cases hl : e.seqs.lookup x with
+    | none => simp [hl] at h
+    | some b =>
+      simp only [hl] at h hx
+      split at h
+      · cases h
+      · cases hb : blocks pfx e r n w with
+        | error e => simp [hb] at h
+        | ok p =>
+          simp only [hb, Except.ok.injEq, Prod.mk.injEq] at h
+          obtain ⟨rfl, rfl⟩ := h
+          have ih := blocks_fixed pfx e hs r n w (bs := p.1) (n' := p.2) hb hfix
+          have hseg : rnSeg ρ (if star then rcSegs b.segs else b.segs).flatten =
+              (if star then rcSegs b.segs else b.segs).flatten := by
+            cases star <;> simp [rcSegs_flatten, rnSeg_rc, ← hx.2.2]
+          simp only [flat_append, flat_plain, List.map_append, map_rnF_n, hseg, ih]
+  | .nuc text :: r, n, w, bs, n', h, hfix => by
+    simp only [blocks] at h
+    split at h
+    · cases hb : blocks pfx e r (n + 1) w with
+      | error e => simp [hb] at h
+      | ok p =>
+        simp only [hb, Except.ok.injEq, Prod.mk.injEq] at h
+        obtain ⟨rfl, rfl⟩ := h
+        have hle := blocks_counter_le pfx e r (n + 1) w (bs := p.1) (n' := p.2) hb
+        have ih := blocks_fixed pfx e hs r (n + 1) w (bs := p.1) (n' := p.2) hb
+          (fun m h1 h2 => hfix m (by omega) h2)
+        have hn := hfix n (Nat.le_refl _) (by omega)
+        simp only [flat, List.map_cons, List.map_append, map_rnF_n, rnF, rnSeg_fwd, hn, ih]
+    · cases w with
+      | true => simp at h
+      | false =>
+        simp only [Bool.false_eq_true, if_false] at h
+        cases hb : blocks pfx e r n true with
+        | error e => simp [hb] at h
+        | ok p =>
+          simp only [hb, Except.ok.injEq, Prod.mk.injEq] at h
+          obtain ⟨rfl, rfl⟩ := h
+          have ih := blocks_fixed pfx e hs r n true (bs := p.1) (n' := p.2) hb hfix
+          simp only [flat, List.map_cons, rnF, ih]
+    · cases h
+
+/-- a flattened region result without its zero-length new domains (what `withNewDomains` keeps) -/
+def nz3 (r : List Nuc × List (String × List Char) × Nat) : List Nuc × List (String × List Char) × Nat :=
+  (r.1, r.2.1.filter (fun d => d.2.length != 0), r.2.2)
+
+theorem finishF_insert_zero_dom (pfx : String) (fa fb : List FItem) (nm : String) (n : Nat) (length : Option Nat) :
+    (finishF pfx (fa ++ .d nm [] :: fb) n length).map nz3 = (finishF pfx (fa ++ fb) n length).map nz3 := by
+  have hw : fWild (fa ++ .d nm [] :: fb) = fWild (fa ++ fb) := by simp [fWild_append, fWild]
+  have hl : fLen (fa ++ .d nm [] :: fb) = fLen (fa ++ fb) := by simp [fLen_append, fLen]
+  have hn : ∀ x, fNucs x (fa ++ .d nm [] :: fb) = fNucs x (fa ++ fb) := by intro x; simp [fNucs_append, fNucs]
+  have hd : ∀ wd, (fDoms wd (fa ++ .d nm [] :: fb)).filter (fun d => d.2.length != 0) =
+      (fDoms wd (fa ++ fb)).filter (fun d => d.2.length != 0) := by
+    intro wd; simp [fDoms_append, fDoms, List.filter_cons]
+  unfold finishF
+  rw [hw, hl]
+  cases fWild (fa ++ fb) with
+  | none =>
+    cases length with
+    | none => simp [Except.map, nz3, hn, hd]
+    | some l =>
+      dsimp only
+      split
+      · rfl
+      · simp [Except.map, nz3, hn, hd]
+  | some parts =>
+    cases length with
+    | none => rfl
+    | some l =>
+      dsimp only
+      split
+      · rfl
+      · cases resolve parts (some (l - fLen (fa ++ fb))) with
+        | error e => rfl
+        | ok r =>
+          obtain ⟨wl, c⟩ := r
+          simp [Except.map, nz3, hn, hd]
+
+/-- (a), quoted region: inserting a zero-length quoted region at position `i` consumes one more anonymous
+    name; up to the renumbering `ρ` of the later ones the outcome is unchanged: same error, or the same
+    nucleotides, the same non-empty new domains, the counter one higher.  `ρ` is any renaming that fixes what
+    the environment binds (`SeqsRel ρ env.seqs env.seqs`) and the anonymous names created before the
+    insertion point, and maps `_Anon m ↦ _Anon (m+1)` from the insertion point on. -/
+theorem denoteRegion_insert_quoted (pfx : String) (env : Env) (items : List SrcItem) (i : Nat) (text : List Char)
+    (length : Option Nat) (hq : resolve (parseQuoted text) none = .ok (0, []))
+    {ρ : String → String} (hs : SeqsRel ρ env.seqs env.seqs)
+    (hlt : ∀ m, m < env.anon + fixedNucs (items.take i) → ρ (pfx ++ "_Anon" ++ toString m) = pfx ++ "_Anon" ++ toString m)
+    (hr : RenumP ρ pfx (env.anon + fixedNucs (items.take i)) 1) :
+    (denoteRegion pfx env (items.take i ++ [.nuc text] ++ items.drop i) length).map (fun r => nz3 (flat3 r)) =
+      (denoteRegion pfx env items length).map (fun r => nz3 (rn3 ρ 1 (flat3 r))) := by
+  have hc1 : ∀ x : Except Denote.Err (List (List Nuc) × List (String × List Char) × Nat),
+      x.map (fun r => nz3 (flat3 r)) = (x.map flat3).map nz3 := by intro x; cases x <;> rfl
+  have hc2 : ∀ x : Except Denote.Err (List (List Nuc) × List (String × List Char) × Nat),
+      x.map (fun r => nz3 (rn3 ρ 1 (flat3 r))) = ((x.map flat3).map (rn3 ρ 1)).map nz3 := by intro x; cases x <;> rfl
+  rw [hc1, hc2, denoteRegion_flat, denoteRegion_flat]
+  have hsplit : blocks pfx env items env.anon false =
+      blocks pfx env (items.take i ++ items.drop i) env.anon false := by rw [List.take_append_drop]
+  rw [hsplit, List.append_assoc, blocks_append, blocks_append]
+  cases hp : blocks pfx env (items.take i) env.anon false with
+  | error e => rfl
+  | ok p =>
+    have hcnt := blocks_counter pfx env (items.take i) env.anon false (bs := p.1) (n' := p.2) hp
+    rw [← hcnt] at hlt hr
+    have hfixp := blocks_fixed pfx env hs (items.take i) env.anon false (bs := p.1) (n' := p.2) hp
+      (fun m _ h2 => hlt m h2)
+    simp only [List.singleton_append, blocks, hq]
+    have hrel := blocks_rel pfx hr env env hs (items.drop i) p.2 (false || hasWild p.1) (Nat.le_refl _)
+    cases hq2 : blocks pfx env (items.drop i) p.2 (false || hasWild p.1) with
+    | error err =>
+      rw [hq2] at hrel
+      rw [map_eq_error hrel]
+      rfl
+    | ok q =>
+      rw [hq2] at hrel
+      obtain ⟨q', hq', hf⟩ := map_eq_ok hrel
+      rw [hq']
+      simp only [Prod.mk.injEq] at hf
+      dsimp only
+      have hfl : flat (p.1 ++ Blk.anon (pfx ++ "_Anon" ++ toString p.2) [] (fwd (pfx ++ "_Anon" ++ toString p.2) 0) :: q'.1) =
+          (flat p.1).map (rnF ρ) ++ FItem.d (pfx ++ "_Anon" ++ toString p.2) [] :: (flat q.1).map (rnF ρ) := by
+        rw [flat_append, hfixp]
+        simp [flat, fwd, hf.1]
+      rw [hfl, finishF_insert_zero_dom, ← List.map_append, ← flat_append, hf.2]
+      rw [finishF_rn pfx ρ 1 q.2 (hr q.2 (blocks_counter_le pfx env (items.drop i) p.2 _ hq2))]
+
+/-! ### statements: unfolding equations -/
+
+def seqResult (pfx : String) (env : Env) (o : Out) (name : String)
+    (r : List (List Nuc) × List (String × List Char) × Nat) : Env × Out :=
+  ({ env with seqs := env.seqs ++ [(name, ⟨r.1.flatten, r.1, true⟩)], anon := r.2.2 },
+   if r.1.flatten.isEmpty then withNewDomains o r.2.1
+   else { withNewDomains o r.2.1 with supSeqs := (withNewDomains o r.2.1).supSeqs ++ [(pfx ++ name, r.1.flatten)] })
+
+def strandResult (pfx : String) (env : Env) (o : Out) (dummy : Bool) (name : String)
+    (r : List (List Nuc) × List (String × List Char) × Nat) : Env × Out :=
+  ({ env with strands := env.strands ++ [(name, r.1.flatten, r.1)], anon := r.2.2 },
+   { withNewDomains o r.2.1 with strands := (withNewDomains o r.2.1).strands ++ [(pfx ++ name, dummy, r.1.flatten)] })
+
+def atomResult (pfx : String) (env : Env) (o : Out) (name : String) (l : Nat) (c : List Char) : Env × Out :=
+  ({ env with seqs := env.seqs ++ [(name, ⟨fwd (pfx ++ name) l, [fwd (pfx ++ name) l], false⟩)] },
+   if l == 0 then o else { o with domains := o.domains ++ [(pfx ++ name, c)],
+                                  baseSeqs := o.baseSeqs ++ [(pfx ++ name, fwd (pfx ++ name) l)] })
+
+theorem denoteStmt_atom (pfx : String) (env : Env) (o : Out) (name : String) (text : List Char) (len : Option Nat) :
+    denoteStmt pfx env o (.seq name [.nuc text] len) =
+      if (env.seqs.lookup name).isSome then .error .duplicate else
+      match resolve (parseQuoted text) len with
+      | .error _ => .error .length
+      | .ok (l, c) => .ok (atomResult pfx env o name l c) := by
+  rw [denoteStmt]
+  rfl
+
+theorem denoteStmt_seq (pfx : String) (env : Env) (o : Out) (name : String) (items : List SrcItem) (len : Option Nat)
+    (h : ∀ t, items ≠ [.nuc t]) :
+    denoteStmt pfx env o (.seq name items len) =
+      if (env.seqs.lookup name).isSome then .error .duplicate else
+      match denoteRegion pfx env items len with
+      | .error e => .error e
+      | .ok r => .ok (seqResult pfx env o name r) := by
+  unfold denoteStmt
+  split
+  · rename_i heq
+    injection heq with _ h2 _
+    exact absurd h2 (h _)
+  · rename_i heq
+    injection heq with h1 h2 h3
+    subst h1 h2 h3
+    by_cases hd : (List.lookup name env.seqs).isSome = true
+    · simp [hd, throw, throwThe, MonadExceptOf.throw, bind, Except.bind]
+    · simp only [hd, Bool.false_eq_true, if_false, bind, Except.bind]
+      cases denoteRegion pfx env items len with
+      | error e => rfl
+      | ok r => rfl
+  all_goals (rename_i heq; cases heq)
+
+theorem denoteStmt_strand (pfx : String) (env : Env) (o : Out) (dummy : Bool) (name : String) (items : List SrcItem)
+    (len : Option Nat) :
+    denoteStmt pfx env o (.strand dummy name items len) =
+      if (env.strands.lookup name).isSome then .error .duplicate else
+      match denoteRegion pfx env items len with
+      | .error e => .error e
+      | .ok r => if r.1.flatten.isEmpty then .error .zeroStrand else .ok (strandResult pfx env o dummy name r) := by
+  rw [denoteStmt]
+  by_cases hd : (List.lookup name env.strands).isSome = true
+  · simp [hd, throw, throwThe, MonadExceptOf.throw, bind, Except.bind]
+  · simp only [hd, Bool.false_eq_true, if_false, bind, Except.bind]
+    cases denoteRegion pfx env items len with
+    | error e => rfl
+    | ok r =>
+      obtain ⟨segs, doms, anon⟩ := r
+      dsimp only
+      by_cases hz : segs.flatten.isEmpty = true
+      · simp [hz, throw, throwThe, MonadExceptOf.throw]
+      · simp only [hz, Bool.false_eq_true, if_false]
+        rfl
+
 end Pepper.DenoteZero
